@@ -216,6 +216,8 @@ Clauses(T, j, pk) ==
     \cup UNION {{<<c, e.d[k].drv>> : c \in IF e.d[k].obs_err = "" THEN FileClauses(env, pk2, e.d[k]) ELSE {}} : k \in DOMAIN e.d}
     \cup (IF \E k \in DOMAIN e.d : ~Agree(e.d[1], e.d[k]) /\ e.d[k].obs_err = "" /\ e.d[1].obs_err = ""
           THEN {<<"drivers_agree", "all">>} ELSE {})
+    \* what the plugin system reports as parent path of a schema is the chain of plugin classes in its class hierarchy
+    \cup (IF env.pg_mismatch # <<>> THEN {<<"parent_path_is_class_chain", "all">>} ELSE {})
 
 Init == tid \in 1..Len(Traces) /\ i = 1 /\ bad = {} /\ packed = <<>>
 
